@@ -36,7 +36,7 @@ if _os.path.exists(_os.path.join(_here, 'C13', 'READY')):
         pass
 META = dict(
     level='proof',
-    level_text='No-allocation as a postcondition (gh_allocs == old(gh_allocs), the heap primitive being the only writer of the counter) of the contracts that cover: claiming/resolving a promise with value, exception or drop, destroying a promise, moving it, constructing a future, get_promise, value(); subscribing an awaiter, resolving and handing over the detached chain, resuming an awaiter, co_await on a future (ready test, suspend with handle or callback, resume), blocking sync() with its stack awaiter, wake-up; try-lock, lock request, unlock / hand-over and ownership release of the coroutine mutex; appending up to three handles to a suspend point, constructing, moving, popping it (add(): no allocation while the old count is < 3 and the representation inline); async co_awaiter wiring; merging into an inline suspend point with a total of at most three handles (bounded shapes), discarding / clearing / destroying / co_awaiting a suspend point and draining the ready queue (normal mode: no allocation; coroutine mode: the deque finding); stepping a generator<int> / generator<int,int>. All for every input / protocol state of those units. Known finding (open, reported as KNOWN-FINDING): in coroutine mode a made-ready coroutine is pushed on the per-thread std::deque, which allocates a node every 64 pushes.',
+    level_text='No-allocation as a postcondition (gh_allocs == old(gh_allocs), the heap primitive being the only writer of the counter) of the contracts that cover: claiming/resolving a promise with value, exception or drop, destroying a promise, moving it, constructing a future, get_promise, value(); subscribing an awaiter, resolving and handing over the detached chain, resuming an awaiter, co_await on a future (ready test, suspend with handle or callback, resume), blocking sync() with its stack awaiter, wake-up; try-lock, lock request, unlock / hand-over and ownership release of the coroutine mutex; appending up to three handles to a suspend point, constructing, moving, popping it (add(): no allocation while the old count is < 3 and the representation inline); async co_awaiter wiring; merging into an inline suspend point with a total of at most three handles (bounded shapes), discarding / clearing / destroying / co_awaiting a suspend point and draining the ready queue (normal mode: no allocation; coroutine mode: the deque finding); stepping a generator<int> / generator<int,int> (lvalue and rvalue argument overloads, and three end-to-end drives of a synchronous generator: the only allocations are the coroutine frames); promise<T>::bind() with a 4-, 64- and 200-byte bound value (binding, calling and destroying the closure never allocate). All for every input / protocol state of those units. Known finding (open, reported as KNOWN-FINDING): in coroutine mode a made-ready coroutine is pushed on the per-thread std::deque, which allocates a node every 64 pushes.',
     level_note='Trusted: heap primitive as the only source of allocations, the statement of the assumed-contract models about their own allocation behaviour, clang front end, ir2c; std::exception_ptr reference counting and exception allocation (throwing paths) are outside the claim. The walk over the detached chain (resume_chain_lk) and suspend_point merging allocate only when more than three coroutines are carried (C06). Generator stepping (yield, hand-back to the asker, next_sync/next_async, next_awt conversions and co_await, iterator step) is covered through the C13 contract units.',
     technique='CBMC code contracts (ensures gh_allocs == old) enforced via goto-instrument --dfcc on the C translation of the real headers, heap primitive with allocation counter',
     trusted_base=['heap primitive lib/rt_core.c (operator new/delete = malloc/free + counters)', 'allocation statements of the std container models'],
